@@ -757,7 +757,7 @@ fn compiled(ctx: &mut Ctx, dir: &std::path::Path, items: &[Accepted], only: Opti
             jm.push((u, inp.clone()));
         }
     }
-    let res = implr::run(&built, &jobs, 10_000);
+    let res = implr::run(&built, &jobs, 60_000);
     let _ = std::fs::remove_dir_all(&bdir);
     for ((u, inp), v) in jm.iter().zip(res.iter()) {
         let (ii, cg) = meta[*u];
